@@ -806,6 +806,55 @@ pub fn c13(items: &[Item], t: &mut Tally, idx: u64, rng: &mut Rng) {
         relevant += 1;
     }
 
+    // ---- discard wrappers: events untouched; arbitrary writes dropped / stats zeroed ----
+    {
+        let (r1, sh1) = RecW::with_stats([3, 1, 4, 1, 5, 9]);
+        let mut w = r1.discard_arbitrary_writes();
+        block_on(async {
+            for (i, it) in items.iter().enumerate() {
+                sh1.call.set(i);
+                w.handle_event(it.clone(), &cli::Empty).await;
+                if i % 4 == 0 {
+                    writer::Arbitrary::<TW, String>::write(&mut w, format!("dropped {i}")).await;
+                }
+            }
+        });
+        let log = sh1.log.borrow();
+        if log.iter().any(|g| matches!(g, Got::Write { .. })) {
+            v.push(("discard-arbitrary:write-leaked".into(), "an arbitrary write reached the inner writer".into()));
+        }
+        let evs: Vec<&Rec> = log.iter().filter_map(|g| match g { Got::Event { fp, .. } => Some(fp), _ => None }).collect();
+        if evs.len() != input.len() || evs.iter().zip(&input).any(|(a, b)| !same_event(a, b)) {
+            v.push(("discard-arbitrary:events".into(), "events altered on their way through discard::Arbitrary".into()));
+        }
+        let got = [Stats::<TW>::passed_steps(&w), Stats::<TW>::skipped_steps(&w), Stats::<TW>::failed_steps(&w), Stats::<TW>::retried_steps(&w), Stats::<TW>::parsing_errors(&w), Stats::<TW>::hook_errors(&w)];
+        if got != [3, 1, 4, 1, 5, 9] {
+            v.push(("discard-arbitrary:stats".into(), format!("stats {got:?} differ from the inner writer's")));
+        }
+        drop(log);
+        let (r2, sh2) = RecW::with_stats([3, 1, 4, 1, 5, 9]);
+        let mut w = r2.discard_stats_writes();
+        block_on(async {
+            for (i, it) in items.iter().enumerate() {
+                sh2.call.set(i);
+                w.handle_event(it.clone(), &cli::Empty).await;
+                if i % 4 == 0 {
+                    writer::Arbitrary::<TW, String>::write(&mut w, format!("kept {i}")).await;
+                }
+            }
+        });
+        let log = sh2.log.borrow();
+        let writes = log.iter().filter(|g| matches!(g, Got::Write { .. })).count();
+        let evs: Vec<&Rec> = log.iter().filter_map(|g| match g { Got::Event { fp, .. } => Some(fp), _ => None }).collect();
+        if writes != input.len().div_ceil(4) || evs.len() != input.len() || evs.iter().zip(&input).any(|(a, b)| !same_event(a, b)) {
+            v.push(("discard-stats:delivery".into(), format!("{} events / {writes} writes reached the inner writer, {} / {} given", evs.len(), input.len(), input.len().div_ceil(4))));
+        }
+        let got = [Stats::<TW>::passed_steps(&w), Stats::<TW>::skipped_steps(&w), Stats::<TW>::failed_steps(&w), Stats::<TW>::retried_steps(&w), Stats::<TW>::parsing_errors(&w), Stats::<TW>::hook_errors(&w)];
+        if got != [0; 6] || Stats::<TW>::execution_has_failed(&w) {
+            v.push(("discard-stats:stats".into(), format!("stats {got:?} are not all zero")));
+        }
+    }
+
     // ---- a nesting: FailOnSkipped<Repeat<Tee<Rec, Rec>>> ----
     {
         let (l, shl) = RecW::new();
